@@ -39,11 +39,15 @@ CONFIGS = {
 }
 
 
-def generate(ctx, cfg_name):
+def generate(ctx, cfg_name, ov=None, complex_override=None):
     """-> (source text, injected globals) for one configuration."""
     repo = ctx.repo
     gen = A.entry_generator(repo)
     is_method, spr, spo, pr, po, kr, ko, complex_keys = CONFIGS[cfg_name]
+    if complex_override is not None:
+        complex_keys = complex_override
+    if ov is None:
+        ov = Record(kind="function object")
     captured = {}
 
     def instantiate_code(symbol, code, inject=None, **kw):
@@ -89,10 +93,12 @@ def generate(ctx, cfg_name):
 
     hi.call = call
     try:
-        hi.call_function(gen.node, ["<OV>", arganal], {}, {})
+        captured["result"] = hi.call_function(gen.node, [ov, arganal], {}, {})
     except Raised as r:
         raise AnalysisError(f"{gen.key}: the generator raises {r.what} on configuration {cfg_name}")
     if "code" not in captured:
+        if ov is not None and complex_override is not None:
+            return None, {"<result>": captured.get("result")}
         raise AnalysisError(f"{gen.key}: the generator did not hand any source to instantiate_code on configuration {cfg_name}")
     return captured["code"], captured["inject"]
 
@@ -423,6 +429,25 @@ def check_call_shapes(ctx, cfg):
     return problems
 
 
+def check_regeneration(ctx):
+    """The generator runs twice for the same function object with the same parameter layout but another set of
+    type-valued parameters (a method annotated with a generic alias was registered in between): the second entry
+    point must be generated afresh, with the new key functions."""
+    problems = []
+    for cfg in ("method-mixed", "plain"):
+        is_method, spr, spo, pr, po, kr, ko, cx = CONFIGS[cfg]
+        ov = Record(kind="function object")
+        generate(ctx, cfg, ov=ov, complex_override=set())
+        code2, inject2 = generate(ctx, cfg, ov=ov, complex_override={0})
+        if code2 is None:
+            problems.append(f"[{cfg}] the second build of the same function object generates nothing: the entry point of the earlier build is reused although the key function of the first parameter changed")
+            continue
+        keyfns = {v.__name__ for v in inject2.values() if isinstance(v, KeyFn)}
+        if "subtler_type" not in keyfns:
+            problems.append(f"[{cfg}] the second build does not use the type-valued key function for the first parameter")
+    return problems
+
+
 def _is_missing_test(t):
     return isinstance(t, ast.Compare) and len(t.ops) == 1 and isinstance(t.ops[0], ast.Is) and dotted(t.comparators[0]) == "MISSING" and isinstance(t.left, ast.Name)
 
@@ -463,6 +488,7 @@ LAW_TEXT = {
     "hand-over": ("the selected method is obtained by subscripting OVLD.map and its call is returned directly", "the entry point post-processes the result, swallows exceptions, or bypasses the table's cache"),
     "per-call-state": ("containers filled during a call are created by the entry point in that call", "per-call containers live outside the call: concurrent or re-entrant calls see each other's keyword arguments"),
     "call-shapes": ("every call shape the entry point accepts hands the selected method exactly the supplied arguments, each under its own position or name, selected on one key element per supplied argument; every prefix of the positionals with any keywords is accepted (entry point interpreted on the shapes)", "a supplied argument is dropped, displaced or replaced by a placeholder, or the method is selected on other arguments than it is called with"),
+    "regenerated": ("every build generates the entry point afresh from the current analysis (two builds of one function object with another set of type-valued parameters give different entry points)", "a registration that makes a parameter type-valued leaves the old entry point in service: classes passed there are looked up by their metaclass"),
     "key-functions": ("every key element is built with the key function the per-position selector chose for that position / name", "a type-valued argument is keyed with the wrong function: a class passed there is looked up as its metaclass (or the reverse)"),
 }
 
@@ -470,6 +496,11 @@ LAW_TEXT = {
 def law(ctx, *names):
     gen = A.entry_generator(ctx.repo)
     ctx.touch(gen)
+    if "regenerated" in names:
+        ps = check_regeneration(ctx)
+        text, why = LAW_TEXT["regenerated"]
+        ctx.ob(f"{gen.key}:regenerated", gen.loc(), text, not ps, "; ".join(ps[:2]) + ": " + why)
+        names = tuple(n for n in names if n != "regenerated")
     for cfg in CONFIGS:
         probs = check_entry(ctx, cfg)
         if "call-shapes" in names:
